@@ -23,6 +23,7 @@ package main
 //	pool's debug log "Instance run awaited") cuts=<ammo|rps|cancel|fail:first instant,...> jitter=<largest oversleep of a 5 ms heartbeat, ns>
 //	lastshot=<instant at which the last Shoot began, -1 = none> gunctx=<first instant at which a gun, shooting or being closed, saw the context
 //	it was given in GunDeps done, -1 = never> (cut `cancel` of a pool = the caller's cancel or the failure of ANOTHER pool of the engine)
+//	allawaited=<the `awaited` of the pool's log line "All instances runs awaited." (checkAllInstancesAreFinished went through), -1 = not seen>
 
 import (
 	"context"
@@ -481,7 +482,7 @@ func run(input string) string {
 func (pc *poolCase) observation(logs *observer.ObservedLogs, e string, end int64, extraStarts int64, jitter int64) string {
 	r := pc.r
 	// what the pool logged about the start loop and the instances
-	started, starterr := int64(-1), "?"
+	started, starterr, allAwaited := int64(-1), "?", int64(-1)
 	reason := map[int64]string{}
 	classify := func(v any) string {
 		msg, _ := v.(string)
@@ -501,6 +502,10 @@ func (pc *poolCase) observation(logs *observer.ObservedLogs, e string, end int64
 			continue
 		}
 		switch en.Message {
+		case "All instances runs awaited.":
+			if v, ok := cm["awaited"].(int64); ok {
+				allAwaited = v
+			}
 		case "Instances start awaited":
 			if v, ok := cm["started"].(int64); ok {
 				started = v
@@ -545,10 +550,10 @@ func (pc *poolCase) observation(logs *observer.ObservedLogs, e string, end int64
 			cuts = append(cuts, fmt.Sprintf("%s:%d", k, t))
 		}
 	}
-	return fmt.Sprintf("k=%d err=%s end=%d mstart=%d fails=%d total=%d started=%d starterr=%s running=%d ids=%s toks=%s picks=%s ctoks=%s guns=%s binds=%s exits=%s cuts=%s jitter=%d lastshot=%d gunctx=%d",
+	return fmt.Sprintf("k=%d err=%s end=%d mstart=%d fails=%d total=%d started=%d starterr=%s running=%d ids=%s toks=%s picks=%s ctoks=%s guns=%s binds=%s exits=%s cuts=%s jitter=%d lastshot=%d gunctx=%d allawaited=%d",
 		len(r.binds), e, end, int64(len(r.binds))+extraStarts, r.fails, len(pc.ctoks), started, starterr, len(r.binds)-len(r.exits), joinInts(ids),
 		joinInts(r.toks), joinInts(r.picks), joinInts(pc.ctoks), joinInts(r.guns), strings.Join(binds, ","), strings.Join(exits, ","), strings.Join(cuts, ","), jitter,
-		r.lastShot, r.gunCtx)
+		r.lastShot, r.gunCtx, allAwaited)
 }
 
 // startup profiles with every token at a multiple of 1 s (so that causes can be placed 500 ms away from every token)
